@@ -47,3 +47,88 @@ def replay_parse(obligation: str = "", model: Optional[Dict[str, str]] = None, *
                 return {"confirmed": True, "input": {"pattern": pat},
                         "observed": f"render_pointer raised {type(e).__name__}: {str(e)[:160]}"}
     return {"confirmed": False, "searched": f"{len(cands)} patterns"}
+
+
+# ---------------------------------------------------------------------------------------------------------------
+# bounded stand-in for the "faithful" half of C16: render(parse(p)) is a valid Python regex with the language of p,
+# and parsing the rendering gives the same tree
+
+F_ATOMS = ["a", "b", ".", "[ab]", "[^a]", "[a-c]", "[\\^-a]", "[a\\-c]", "[\\]a]", "[-a]", "[a-]", "\\x62", "\\u0062",
+           "\\U00000062", "\\.", "\\\\", "\\}", "\\{", "}", "]", "(a|b)", "(ab)", "(|a)", "(a)", " ", "\\t", "\\n", "\\$",
+           "\\^", "\\|", "\\(", "\\[", "\\*", "\\+", "\\?", "\\-", "-", ",", "\"", "'", "/"]
+F_QUANTS = ["", "*", "+", "?", "{2}", "{1,2}", "{2,}", "{,2}", "{0}", "{ 1 , 2 }", "{3 4}", "{1,2,3}", "*?", "+?", "??",
+            "{1,2}?"]
+F_ALPHABET = "abc^-]}{ .\\"
+
+
+def _faithful(pat: str, max_len: int) -> Optional[Dict[str, Any]]:
+    import itertools
+    import re
+    try:
+        regex, error = retree.parse([pat])
+    except BaseException as e:  # noqa
+        return {"pattern": pat, "clause": "never-raises", "observed": f"parse raised {type(e).__name__}: {str(e)[:120]}"}
+    if error is not None:
+        return None
+    try:
+        orig = re.compile(pat)
+    except re.error as e:
+        return {"pattern": pat, "clause": "accepted-patterns-are-python-regexes",
+                "observed": f"accepted by the parser but re.compile rejects the pattern itself: {e}"}
+    try:
+        rendered = retree.render(regex)
+    except BaseException as e:  # noqa
+        return {"pattern": pat, "clause": "never-raises", "observed": f"render raised {type(e).__name__}: {str(e)[:120]}"}
+    if not all(isinstance(x, str) for x in rendered) or len(rendered) > 1:
+        return {"pattern": pat, "clause": "rendering-is-one-string", "observed": repr(rendered)}
+    text = "".join(rendered)  # the empty pattern renders to no piece at all
+    try:
+        again = re.compile(text)
+    except re.error as e:
+        return {"pattern": pat, "rendered": text, "clause": "rendering-is-a-valid-python-regex", "observed": str(e)}
+    for n in range(0, max_len + 1):
+        for chars in itertools.product(F_ALPHABET, repeat=n):
+            s = "".join(chars)
+            if (orig.fullmatch(s) is None) != (again.fullmatch(s) is None):
+                return {"pattern": pat, "rendered": text, "text": s, "clause": "same-language",
+                        "observed": f"original matches: {orig.fullmatch(s) is not None}, rendering matches: "
+                                    f"{again.fullmatch(s) is not None}"}
+    try:
+        regex2, error2 = retree.parse([text])
+    except BaseException as e:  # noqa
+        return {"pattern": pat, "rendered": text, "clause": "never-raises", "observed": f"re-parse raised {type(e).__name__}"}
+    if error2 is not None:
+        return {"pattern": pat, "rendered": text, "clause": "rendering-parses-again", "observed": error2.message}
+    if retree.dump(regex2) != retree.dump(regex):
+        return {"pattern": pat, "rendered": text, "clause": "re-parsing-gives-the-same-tree",
+                "observed": "the trees differ", "tree": retree.dump(regex)[:300], "tree_again": retree.dump(regex2)[:300]}
+    return None
+
+
+def _faithful_task(args: Any) -> Optional[Dict[str, Any]]:
+    return _faithful(*args)
+
+
+def faithful(seed: int = 0, max_terms: int = 2, max_len: int = 2, jobs: int = 16, **_: Any) -> Dict[str, Any]:
+    import itertools
+    import multiprocessing as mp
+    terms = [a + q for a in F_ATOMS for q in F_QUANTS]
+    pats: List[str] = []
+    for k in range(0, max_terms + 1):
+        for combo in itertools.product(terms, repeat=k) if k <= 1 else itertools.product(terms, F_ATOMS):
+            pats.append("".join(combo))
+    pats += ["^" + p + "$" for p in pats[: len(terms) + 1]] + NEAR_MISSES
+    with mp.get_context("fork").Pool(jobs) as pool:
+        res = pool.map(_faithful_task, [(p, max_len) for p in pats], chunksize=64)
+    import re as _re
+    by_clause: Dict[str, Dict[str, Any]] = {}
+    for r in res:
+        if r is not None:
+            # one representative per clause and kind of pattern; blanks inside a counted quantifier are one kind
+            kind = "blank-in-quantifier" if _re.search(r"\{[^}]*[ \t][^}]*\}", r["pattern"]) else r["pattern"][:1]
+            r["kind"] = kind
+            by_clause.setdefault(r["clause"] + "|" + kind, r)
+    failures = sorted(by_clause.values(), key=lambda r: r["kind"] == "blank-in-quantifier")
+    return {"cases": len(pats), "distinct": len(pats), "failures": failures[:8], "exhaustive": True,
+            "n_failing": sum(1 for r in res if r is not None),
+            "samples": [{"pattern": "[a-c]{1,2}", "strings": f"all over {F_ALPHABET!r} up to length {max_len}"}]}
